@@ -270,6 +270,13 @@ Definition check_code (cplx : bool) (c : jaxpr * nat) : nat :=
        | None => S (List.length eqs)
        end.
 
+(** kinds assigned to all variables (0 = constant, 1 = zero, 2 = linear, 3 = conjugate-linear);
+    [] when the program is rejected.  Used by the harness to validate the table on the primitive
+    instances it meets. *)
+Definition kind_code (k : kind) : nat := match k with KC => 0 | KZ => 1 | KL => 2 | KA => 3 end.
+Definition kinds_of (cplx : bool) (eqs : jaxpr) : list nat :=
+  match lin_check (rule_tbl cplx) eqs [KL] with Some ks => map kind_code ks | None => [] end.
+
 (** closed instance of soundness for the concrete table: linearity of the traced program
     under the single hypothesis that the primitive semantics respects the table *)
 Theorem jaxpr_linear_if_accepted :
